@@ -201,6 +201,17 @@ func (g *Gen) boundOf(st *State, comp string) string {
 	return g.now(st)
 }
 
+// loadBound: allocation bound of a reference loaded from l. The bound of the component's version holds for the
+// objects that existed at that version; a field of an object allocated later (e.g. by a callee whose contract describes
+// the fields of its fresh result) is only known to be allocated by now.
+func (g *Gen) loadBound(st *State, l *Loc) string {
+	vb, nowc := g.boundOf(st, l.comp), g.now(st)
+	if vb == nowc || l.ref == "" || l.ref == "0" {
+		return vb
+	}
+	return fmt.Sprintf("(ite (<= %s %s) %s %s)", l.ref, vb, vb, nowc)
+}
+
 func (g *Gen) fieldComp(st types.Type, idx int) (comp string, fsort string, ftype types.Type) {
 	u := types.Unalias(st).Underlying().(*types.Struct)
 	f := u.Field(idx)
